@@ -677,6 +677,7 @@ class Output(object):
             self.network = self._address_obj.network
             self.encoding = self._address_obj.encoding
             self.witness_type = self._address_obj.witness_type
+            self.witver = self._address_obj.witver
 
         if self.script:
             self.script_type = self.script_type if not self.script.script_types else self.script.script_types[0]
@@ -704,6 +705,7 @@ class Output(object):
             #                            (self._address, address_dict['network'], self.network.name))
             self.public_hash = address_dict['public_key_hash_bytes']
             self.witness_type = address_dict['witness_type']
+            self.witver = address_dict['witver'] or 0
         if not self.encoding:
             self.encoding = 'bech32'
             if self.script_type in ['p2pkh', 'p2sh', 'p2pk'] or self.witness_type == 'legacy':
@@ -716,7 +718,8 @@ class Output(object):
             if self.encoding == 'bech32':
                 self.script_type = 'p2wpkh'
         if not self.script and strict and (self.public_hash or self.public_key):
-            self.script = Script(script_types=[self.script_type], public_hash=self.public_hash, keys=[self.public_key])
+            self.script = Script(script_types=[self.script_type], public_hash=self.public_hash, keys=[self.public_key],
+                                 sigs_required=self.witver if self.script_type == 'p2tr' else None)
             self.lock_script = self.script.serialize()
             if not self.script:
                 raise TransactionError("Unknown output script type %s, please provide locking script" %
